@@ -17,16 +17,16 @@ LEVEL = "exploration"
 TECHNIQUE = "exhaustive enumeration (itertools.product over 16 processes) of a bounded descriptor space + Hypothesis layer for larger bounds, against a 15-line reference matcher"
 LEVEL_TEXT = ("exhaustive within the bound: every key set of size <=3 on the leaf and <=1 on its parent over a 29-key universe "
               "(14 event types of 1-3 segments over {a,b}, their 6 partial descriptors, '*', 5 internal event types and 3 "
-              "internal partials), every guard/null mode per key, every one of 19 event types; plus generated search "
-              "beyond the bound (3-letter alphabet, ancestor chains of depth 3, up to 4 keys per level)")
+              "internal partials), every guard/null mode per key, every one of 22 event types, the parent level on a state or on the machine root; plus generated search "
+              "beyond the bound (segments {a,b,ab}, ancestor chains of depth 3, up to 4 keys per level)")
 RULE = (
     "Exhaustive part: machine m > p > l (leaf) where l declares a key set K_l (|K_l|<=3) and p a key set K_p (|K_p|<=1) "
-    "from a 29-key universe; each key is independently guarded-true / guarded-false / null; all 19 event types (14 user "
+    "from a 29-key universe; each key is independently guarded-true / guarded-false / null; all 22 event types (14 user "
     "types over segments {a,b} with 1-3 segments + done.state.x, done.invoke.x, error.platform.x, after.1.x, xstate.x) are "
     "sent and the marker that fired is compared with the reference matcher (exact, then partials by decreasing prefix "
     "length where p.* matches p and p.<more>, then '*'; internal events only by their exact key; first candidate whose "
     "guard is true wins; a null key stops the upward walk). quick = a fixed stride of the enumeration, thorough = all "
-    "of it. Hypothesis part: segments {a,b,c}, chains l<p<g, <=4 keys per level, on both engines. Non-trivial = "
+    "of it. (plus the near-miss types ab, ab.a, a.ba, which no a.* / a.b.* may match; the parent level is declared on a state below the root or - every other sampled machine, and a strided second pass of the complete run - on the machine root itself). Hypothesis part: segments {a,b,ab}, chains l<p<g with the outermost level optionally on the root, <=4 keys per level, on both engines. Non-trivial = "
     "(event, machine) pairs where >=2 keys of one level match the event, or a null/false-guard makes the decision "
     "pass to a less specific key or to the ancestor; distinct = distinct (keysets+modes, event)."
 )
@@ -38,7 +38,10 @@ ASSUMPTIONS = [
 SEGS = ["a", "b"]
 USER_TYPES = [".".join(p) for n in (1, 2, 3) for p in itertools.product(SEGS, repeat=n)]
 INTERNAL_TYPES = ["done.state.x", "done.invoke.x", "error.platform.x", "after.1.x", "xstate.x"]
-EVENT_TYPES = USER_TYPES + INTERNAL_TYPES
+# event types that begin with the characters of a shorter type's segment without sharing the segment: `a.*` must not
+# match `ab`, `a.b.*` must not match `a.ba`
+NEAR_TYPES = ["ab", "ab.a", "a.ba"]
+EVENT_TYPES = USER_TYPES + INTERNAL_TYPES + NEAR_TYPES
 PARTIALS = [".".join(p) + ".*" for n in (1, 2) for p in itertools.product(SEGS, repeat=n)]
 INTERNAL_PARTIALS = ["done.*", "done.state.*", "after.*"]
 UNIVERSE = USER_TYPES + PARTIALS + ["*"] + INTERNAL_TYPES + INTERNAL_PARTIALS
@@ -47,11 +50,13 @@ MODES = ["T", "F", "N"]  # guarded-true, guarded-false, null
 logging.disable(logging.CRITICAL)
 
 
-def build(levels: List[List[Tuple[str, str]]]):
-    """levels[0] = leaf [(key, mode)...], levels[1] = its parent, ...  -> (config, names)."""
+def build(levels: List[List[Tuple[str, str]]], root_top: bool = False):
+    """levels[0] = leaf [(key, mode)...], levels[1] = its parent, ...  -> (config, names).
+    root_top: the outermost level is declared on the machine root itself instead of on a state below it."""
     node = None
     depth = len(levels)
     cfg = None
+    top_on = None
     for i, lv in enumerate(levels):
         on = {}
         for key, mode in lv:
@@ -59,12 +64,17 @@ def build(levels: List[List[Tuple[str, str]]]):
                 on[key] = None
             else:
                 on[key] = {"actions": [f"k{i}:{key}"], "guard": "gT" if mode == "T" else "gF"}
+        if root_top and i == len(levels) - 1 and node is not None:
+            top_on = on
+            break
         s = {"on": on} if on else {}
         if node is not None:
             s["initial"] = "c"
             s["states"] = {"c": node}
         node = s
     cfg = {"id": "m", "initial": "c", "states": {"c": node}}
+    if top_on:
+        cfg["on"] = top_on
     return cfg
 
 
@@ -87,11 +97,11 @@ def _mark(i, c, e, a):
     _LOG.append(a.type)
 
 
-def run_machine(levels, engine="sync", events=EVENT_TYPES):
+def run_machine(levels, engine="sync", events=EVENT_TYPES, root_top=False):
     """-> list of (event, fired markers)."""
     from xstate_statemachine import Event, MachineLogic, SyncInterpreter, create_machine
 
-    cfg = build(levels)
+    cfg = build(levels, root_top)
     names = {f"k{i}:{k}" for i, lv in enumerate(levels) for k, m in lv if m != "N"}
     logic = MachineLogic(actions={n: _mark for n in names}, guards={"gT": lambda c, e: True, "gF": lambda c, e: False})
     machine = create_machine(cfg, logic=logic)
@@ -153,7 +163,8 @@ def parent_variants():
 
 
 def _enum_worker(args):
-    shard, nshards, stride = args
+    shard, nshards, stride = args[:3]
+    layout_pass = args[3] if len(args) > 3 else 0
     n = 0
     nt = 0
     viol = []
@@ -168,11 +179,16 @@ def _enum_worker(args):
             if (idx // stride) % nshards != shard:
                 continue
             levels = [list(leaf), list(par)]
+            # layout: the parent level sits on a state below the root, or on the machine root itself (every other
+            # sampled machine of a strided run; the complete run adds a strided second pass in the root layout)
+            root_top = bool(par) and ((idx // stride) % 2 == 1 if stride > 1 else layout_pass == 1)
+            if stride == 1 and layout_pass == 1 and (not par or idx % 5 != 0):
+                continue
             try:
-                res = run_machine(levels)
+                res = run_machine(levels, root_top=root_top)
             except Exception as e:  # noqa
                 viol.append({"tag": f"sync|exception|{type(e).__name__}", "detail": {"msg": str(e)[:200]},
-                             "case": {"levels": levels, "engine": "sync"}})
+                             "case": {"levels": levels, "engine": "sync", "root_top": root_top}})
                 continue
             for ev, fired in res:
                 n += 1
@@ -185,7 +201,7 @@ def _enum_worker(args):
                     if len(viol) < 20:
                         tag = _tag("sync", levels, ev, exp, fired)
                         viol.append({"tag": tag, "detail": {"event": ev, "expected": exp, "fired": fired},
-                                     "case": {"levels": levels, "engine": "sync", "events": [ev]}})
+                                     "case": {"levels": levels, "engine": "sync", "events": [ev], "root_top": root_top}})
     return n, nt, viol, samples
 
 
@@ -207,7 +223,9 @@ def extra_run(tier, seed, jobs):
     t0 = time.time()
     ctx = mp.get_context("fork")
     with ctx.Pool(jobs) as pool:
-        parts = pool.map(_enum_worker, [(i, jobs, stride) for i in range(jobs)])
+        parts = pool.map(_enum_worker, [(i, jobs, stride, 0) for i in range(jobs)])
+        if stride == 1:
+            parts += pool.map(_enum_worker, [(i, jobs, stride, 1) for i in range(jobs)])
     n = sum(p[0] for p in parts)
     nt = sum(p[1] for p in parts)
     viol = [v for p in parts for v in p[2]]
@@ -227,7 +245,7 @@ def extra_run(tier, seed, jobs):
 
 
 # ------------------------------------------------------------------ Hypothesis layer beyond the bound
-SEGS3 = ["a", "b", "c"]
+SEGS3 = ["a", "b", "ab"]   # `ab` begins with the characters of `a` without being the segment `a`
 TYPES3 = [".".join(p) for n in (1, 2, 3) for p in itertools.product(SEGS3, repeat=n)]
 UNIVERSE3 = TYPES3 + [".".join(p) + ".*" for n in (1, 2) for p in itertools.product(SEGS3, repeat=n)] + ["*"] + INTERNAL_TYPES + INTERNAL_PARTIALS + ["error.*", "xstate.*"]
 
@@ -242,6 +260,7 @@ def strategy(tier, campaign):
         "levels": st.lists(level, min_size=1, max_size=3),
         "events": st.lists(st.sampled_from(TYPES3 + INTERNAL_TYPES), min_size=1, max_size=8),
         "engine": st.sampled_from(["sync", "async"]),
+        "root_top": st.booleans(),
     })
 
 
@@ -251,7 +270,7 @@ def check_case(case) -> CaseResult:
     events = case.get("events") or EVENT_TYPES
     engine = case.get("engine", "sync")
     try:
-        out = run_machine(levels, engine, events)
+        out = run_machine(levels, engine, events, root_top=bool(case.get("root_top")))
     except Exception as e:  # noqa
         res.violate(f"{engine}|exception|{type(e).__name__}", {"msg": str(e)[:300]})
         return res
@@ -265,5 +284,5 @@ def check_case(case) -> CaseResult:
     res.nontrivial = bool(keys)
     res.nontrivial_keys = keys
     res.extra_evals = len(out) - 1
-    res.sample = {"levels": levels, "events": events, "engine": engine, "fired": out[:4]}
+    res.sample = {"levels": levels, "events": events, "engine": engine, "root_top": bool(case.get("root_top")), "fired": out[:4]}
     return res
